@@ -204,7 +204,14 @@ func SameNamedPackages() []*Case {
 	e.Main.Imports["amodels"] = e.PkgPath(ea)
 	e.Main.Imports["bmodels"] = e.PkgPath(eb)
 	e.Main.Files = []*File{{Name: "defs.go", Decls: []*Decl{{Kind: "raw", Name: "T", Text: "type Order struct {\n\tSa amodels.Status\n\tSb bmodels.Status\n\tMa amodels.Mode\n\tMb bmodels.Mode\n\tHist []bmodels.Status\n\tItems []amodels.Item\n}\n"}}}}
-	return []*Case{c, d, d2, e}
+	// a sub-package named like the analysed package itself (imported under another name)
+	f := &Case{ID: "h67", Feat: []string{"hand:sub-package-named-like-the-analysed-package"}}
+	f.Main = &Pkg{Name: "ph67", Imports: map[string]string{}}
+	fc := &Pkg{Dir: "core/ph67", Name: "ph67", Files: []*File{{Name: "c.go", Decls: []*Decl{{Kind: "raw", Name: "c", Text: "type Level int\nconst (\n\tLow Level = iota + 1\n\tMid\n\tHigh\n)\ntype Unit string\nconst (\n\tKg Unit = \"kg\"\n\tLb Unit = \"lb\"\n)\n"}}}}}
+	f.Subs = []*Pkg{fc}
+	f.Main.Imports["core"] = f.PkgPath(fc)
+	f.Main.Files = []*File{{Name: "defs.go", Decls: []*Decl{{Kind: "raw", Name: "T", Text: "type Order struct {\n\tL core.Level\n\tLs []core.Level\n\tU core.Unit\n\tN int\n}\n"}}}}
+	return []*Case{c, d, d2, e, f}
 }
 
 // ManyImports returns programs whose types come from several packages (so that the import lists
